@@ -76,8 +76,9 @@ def _worker(idx):
                 "explore_s": round(fam.seconds, 3), "wall_s": round(time.time() - t0, 3),
                 "bounded": fam.bounded, "extra": getattr(fam, "extra", None)}
     except Exception:
-        return {"family": spec.name, "props": sorted(spec.props), "functions": spec.functions,
-                "error": "engine: " + traceback.format_exc(), "paths": 0, "stats": {}, "obls": [],
+        tb = traceback.format_exc()
+        return {"family": spec.name, "props": sorted(spec.props), "functions": spec.functions, "optional": spec.optional,
+                "error": ("unsupported: (optional family) " + tb.strip().splitlines()[-1]) if spec.optional else "engine: " + tb, "paths": 0, "stats": {}, "obls": [],
                 "explore_s": 0, "wall_s": round(time.time() - t0, 3), "bounded": None}
 
 
